@@ -440,6 +440,24 @@ impl Scenario for Dc {
                 }
             }
         }
+        // 5. "it carries exactly that code": when the first thing that happens to a connection is a cause with a
+        // dedicated code - nothing closed it before, the peer has not disconnected, the control service is the
+        // default one and so supplies no packet of its own and suppresses none - that DISCONNECT is written
+        // (mutation-sweep survivor: the control-response path dropped the first DISCONNECT of every connection)
+        // Judged on servers (a client that just goes away has not been counted against the statement) and only
+        // when nothing else happens to the connection: an application close - also right after the cause -
+        // legitimately replaces or suppresses the packet, a peer DISCONNECT forbids it.
+        let benign = |i: &Ini| matches!(i, Ini::Pub1 | Ini::Sub | Ini::Ping | Ini::HOk | Ini::POk);
+        if d.is_empty() && self.cfg.ep.ctl == crate::world::CtlMode::None && self.cfg.ep.role == Role::Server && self.done.iter().all(|i| benign(i) || (i.dedicated().is_some() && *i != Ini::KeepAlive)) {
+            let first = self.done.iter().find(|i| !benign(i));
+            if let Some(code) = first.and_then(|f| f.dedicated()) {
+                return Err(Violation::new(
+                    "dedicated-code-missing",
+                    self.wit(&format!("{:?} -> none", first.unwrap())),
+                    format!("the connection was ended by a cause with the dedicated code {code:#x} and no DISCONNECT was written: {}", self.detail()),
+                ));
+            }
+        }
         let obs = format!("{:?} out={:?} stops={}", self.done, self.conn.out_short(), self.conn.log.stops().len());
         Ok(Outcome { obs, nontrivial: !d.is_empty() || self.done.len() > 1 })
     }
